@@ -97,7 +97,7 @@ class Report:
         replay_paths = []
         if True:
             for i, v in enumerate(new_viol):
-                rp = os.path.join(VERIF, 'evidence', 'replay', '%s-%d.json' % (self.pid, i))
+                rp = os.path.join(VERIF, 'evidence', 'replay', '%s%s-%d.json' % ('scratch-' if os.environ.get('VERIF_NO_EVIDENCE') else '', self.pid, i))
                 with open(rp, 'w') as fh:
                     json.dump({'property': self.pid, 'rule': v['rule'], 'instance': v['key'], 'location': v['loc'],
                                'detail': v['detail'], 'data': v.get('data')}, fh, indent=1, default=str)
@@ -145,8 +145,9 @@ class Report:
             'violations': len(new_viol),
         }
         ev['coverage'].update(self.extra)
-        with open(os.path.join(VERIF, 'evidence', '%s.json' % self.pid), 'w') as fh:
-            json.dump(ev, fh, indent=1, default=str)
+        if not os.environ.get('VERIF_NO_EVIDENCE'):
+            with open(os.path.join(VERIF, 'evidence', '%s.json' % self.pid), 'w') as fh:
+                json.dump(ev, fh, indent=1, default=str)
         if not quiet:
             for ln in out_lines:
                 print(ln)
